@@ -4,6 +4,7 @@
 import Driver.Common
 import Discv5Model.Model.Service
 import Discv5Model.Model.Connectivity
+import Discv5Model.Model.Lookup
 namespace Discv5.Driver
 namespace SvcD
 open Discv5.KB Discv5.Svc
@@ -13,6 +14,8 @@ structure SvcInst where
   svc : Svc
   /-- the connectivity state (`Model/Connectivity.lean`); the `Instant` clock stands still in a case -/
   conn : Conn.Conn := { duration := none }
+  /-- the running lookup's state machine (`Model/Lookup.lean`) -/
+  lq : Option Lookup.Q := none
   /-- the application is not reading its event stream: events are not part of the replies -/
   evPaused : Bool := false
   /-- every request ever emitted (requests are looked up here once they are no longer active) -/
@@ -142,17 +145,6 @@ def histOf (outs : List Out) (s : Svc) : List ActiveReq :=
     | .request id _ _ _ => s.active.find? (fun a => a.id == id)
     | _ => none
 
-/-- Applies the trailing tokens of a resolved op: `q=peer,peer` (requests the query pool emitted),
-`qfin` (query finished). -/
-def applySuffix (s : Svc) (sfx : List String) : Svc × List Out :=
-  sfx.foldl (fun (acc : Svc × List Out) tok =>
-    if tok.startsWith "q=" then
-      ((tok.drop 2).toString.splitOn ",").foldl (fun (a : Svc × List Out) p =>
-        let (s1, o) := a.1.step {} (.queryEmit (sKey p))
-        (s1, a.2 ++ o)) acc
-    else if tok == "qfin" then ((acc.1.step {} .queryFinished).1, acc.2)
-    else acc) (s, [])
-
 def oracleOf (s : Svc) (sfx : List String) : Oracle :=
   sfx.foldl (fun (o : Oracle) tok =>
     if tok.startsWith "local=" then
@@ -163,30 +155,25 @@ def oracleOf (s : Svc) (sfx : List String) : Oracle :=
         { o with newLocal := some (r, a) }
       | none => o
     else if tok == "rm=1" then { o with requireMore := true }
-    else if tok == "nc=1" then { o with countable := false }
     else o) {}
 
-/-- Renders the reply of a step of instance `i` that led to `s2` / `conn2` with outputs `o1` (the
-step proper, run on `s1`) and `o2` (the suffix). -/
-def finishOn (st : ServiceSt) (i : SvcInst) (s1 s2 : Svc) (conn2 : Conn.Conn) (o1 o2 : List Out)
-    (extra : Option String) : ServiceSt × String :=
-  let outs := o1 ++ o2
+def showResult (found : Option (List Rec)) : Option String :=
+  found.map fun rs => s!"qres:{rs.length}:{if rs.isEmpty then "-" else ",".intercalate (rs.map (fun r => id8 r.id))}"
+
+/-- Renders the reply of a step of instance `i`: `steps` are the outputs of the service steps, each
+with the state it led to (the requests it emitted are looked up there), `res` is the result of a
+lookup that ended. -/
+def finishOn (st : ServiceSt) (i : SvcInst) (sEnd : Svc) (conn : Conn.Conn) (lq : Option Lookup.Q)
+    (steps : List (List Out × Svc)) (res : Option (List Rec)) (extra : Option String) : ServiceSt × String :=
+  let outs := steps.flatMap (·.1)
   let (items, bans) := showOuts outs
   let items := if i.evPaused then items.filter (fun s => !s.startsWith "ev:") else items
   let items := match extra with | some e => e :: items | none => items
-  let i' := { i with svc := s2, conn := conn2, hist := i.hist ++ histOf o1 s1 ++ histOf o2 s2 }
+  let items := match showResult res with | some r => items ++ [r] | none => items
+  let i' := { i with svc := sEnd, conn := conn, lq := lq,
+                     hist := i.hist ++ steps.flatMap (fun p => histOf p.1 p.2) }
   let st' := { setInst st i' with bans := sortDedupStr (st.bans ++ bans) }
-  (st', s!"{if items.isEmpty then "-" else " ".intercalate items} | T={digest false s2.table}")
-
-/-- Runs one input on instance `x` (plus the suffix), renders the reply. -/
-def runOn (st : ServiceSt) (x : String) (inp : Svc → Oracle → Svc × List Out) (sfx : List String)
-    (extra : Option String) : ServiceSt × String :=
-  match getInst st x with
-  | none => (st, "noop")
-  | some i =>
-    let (s1, o1) := inp i.svc (oracleOf i.svc sfx)
-    let (s2, o2) := applySuffix s1 sfx
-    finishOn st i s1 s2 i.conn o1 o2 extra
+  (st', s!"{if items.isEmpty then "-" else " ".intercalate items} | T={digest false sEnd.table}")
 
 /-- The `t=` token of a resolved op: the tokio clock (ms) when the op was handed to the service. -/
 def tokOf (sfx : List String) : Nat :=
@@ -194,14 +181,28 @@ def tokOf (sfx : List String) : Nat :=
   | some t => nat! (t.drop 2).toString
   | none => 0
 
-/-- Runs one service input through `KSvc.step` (service + connectivity state): sessions and PONGs. -/
-def runK (st : ServiceSt) (x : String) (inp : Svc.Input) (sfx : List String) : ServiceSt × String :=
+/-- Runs service inputs on instance `x`: each one is a step of the service with its connectivity
+state (`Conn.KSvc.step`) that may tell the running lookup something (`Lookup.effectOf`); afterwards
+the service loop serves the lookup (`Lookup.pump`): requests to the peers it selects, its result
+when it is finished.  This is `Lookup.LSvc.step` with the connectivity state carried along. -/
+def runInputs (st : ServiceSt) (x : String) (inps : List Svc.Input) (sfx : List String)
+    (extra : Option String) : ServiceSt × String :=
   match getInst st x with
   | none => (st, "noop")
   | some i =>
-    let (k1, o1) := ({ svc := i.svc, conn := i.conn } : Conn.KSvc).step (tokOf sfx) 0 (.svc (oracleOf i.svc sfx) inp)
-    let (s2, o2) := applySuffix k1.svc sfx
-    finishOn st i k1.svc s2 k1.conn o1 o2 none
+    let o := oracleOf i.svc sfx
+    let tok := tokOf sfx
+    let init : Conn.KSvc × Option Lookup.Q × List (List Out × Svc) := ({ svc := i.svc, conn := i.conn }, i.lq, [])
+    let (k, q, steps) := inps.foldl (fun acc inp =>
+      let (k, q, steps) := acc
+      let eff := Lookup.effectOf k.svc inp
+      let (k1, o1) := k.step tok 0 (.svc o inp)
+      let q1 := match q, eff with
+        | some qq, some e => some (Lookup.applyEffect {} qq e)
+        | q, _ => q
+      (k1, q1, steps ++ [(o1, k1.svc)])) init
+    let (l2, o2, res) := Lookup.pump 0 { svc := k.svc, q := q }
+    finishOn st i l2.svc k.conn l2.q (steps ++ [(o2, l2.svc)]) res extra
 
 /-- The earliest deadline of a connectivity timer that is due by `tEnd`. -/
 def nextDue (c : Conn.Conn) (tEnd : Nat) : Option Nat :=
@@ -257,8 +258,8 @@ def serviceStep (st : ServiceSt) (toks : List String) : ServiceSt × String :=
         | some r => (r.size, r.sig)
         | none => (i.svc.localRec.size, i.svc.localRec.sig)
       let (k1, o1) := idleK { svc := i.svc, conn := i.conn } (tokOf sfx) sz sg
-      finishOn st i k1.svc k1.svc k1.conn o1 [] none
-  | ["sway", x, peer, addr] => runOn st x (fun s o => s.step o (.whoAreYou (sKey peer) (parseAddr addr))) [] none
+      finishOn st i k1.svc k1.conn i.lq [(o1, k1.svc)] none none
+  | ["sway", x, peer, addr] => runInputs st x [.whoAreYou (sKey peer) (parseAddr addr)] [] none
   | ["sevpause", x] =>
     match getInst st x with
     | some i => (setInst st { i with evPaused := true }, "ok")
@@ -271,44 +272,49 @@ def serviceStep (st : ServiceSt) (toks : List String) : ServiceSt × String :=
     match parseRec rec, getInst st x with
     | some r, some i =>
       let res := (i.svc.addEnr r).2
-      runOn st x (fun s _ => s.step {} (.addEnr r)) [] (some (if res == .ok then "ok" else "err:add"))
+      runInputs st x [.addEnr r] [] (some (if res == .ok then "ok" else "err:add"))
     | _, _ => (st, "noop")
   | "sest" :: x :: rec :: addr :: dir :: sfx =>
     match parseRec rec with
-    | some r => runK st x (.established r (parseAddr addr) (dir == "i")) sfx
+    | some r => runInputs st x [.established r (parseAddr addr) (dir == "i")] sfx none
     | none => (st, "noop")
   | ["srm", x, id] =>
     match getInst st x with
     | some i =>
       let res := (i.svc.removeNode (sKey id)).2
-      runOn st x (fun s _ => s.step {} (.removeNode (sKey id))) [] (some s!"removed={res}")
+      runInputs st x [.removeNode (sKey id)] [] (some s!"removed={res}")
     | none => (st, "noop")
-  | ["sunverifiable", x, id] => runOn st x (fun s o => s.step o (.unverifiable (sKey id))) [] none
+  | ["sunverifiable", x, id] => runInputs st x [.unverifiable (sKey id)] [] none
   | "sreq" :: x :: peer :: addr :: rid :: body =>
     match parseReqBody body with
-    | some b => runOn st x (fun s o => s.step o (.request (sKey peer) (parseAddr addr) (bytesOf rid) b)) [] none
+    | some b => runInputs st x [.request (sKey peer) (parseAddr addr) (bytesOf rid) b] [] none
     | none => (st, "noop")
   | "sresp" :: x :: rk :: peer :: addr :: "nodes" :: total :: recs :: sfx =>
-    runOn st x (fun s o => s.step o (.response (sKey peer) (parseAddr addr) (reqNo rk)
-      (.nodes (nat! total) (parseRecs recs)))) sfx none
+    runInputs st x [.response (sKey peer) (parseAddr addr) (reqNo rk) (.nodes (nat! total) (parseRecs recs))] sfx none
   | "sresp" :: x :: rk :: peer :: addr :: "pong" :: seq :: obs :: sfx =>
-    runK st x (.response (sKey peer) (parseAddr addr) (reqNo rk) (.pong (nat! seq) (parseAddr obs))) sfx
+    runInputs st x [.response (sKey peer) (parseAddr addr) (reqNo rk) (.pong (nat! seq) (parseAddr obs))] sfx none
   | "sresp" :: x :: rk :: peer :: addr :: "talk" :: payload :: sfx =>
-    runOn st x (fun s o => s.step o (.response (sKey peer) (parseAddr addr) (reqNo rk)
-      (.talk (bytesOf payload)))) sfx none
-  | "sfail" :: x :: rk :: sfx => runOn st x (fun s o => s.step o (.requestFailed (reqNo rk))) sfx none
-  | "squery" :: x :: target :: sfx => runOn st x (fun s o => s.step o (.startQuery (sKey target))) sfx none
+    runInputs st x [.response (sKey peer) (parseAddr addr) (reqNo rk) (.talk (bytesOf payload))] sfx none
+  | "sfail" :: x :: rk :: sfx => runInputs st x [.requestFailed (reqNo rk)] sfx none
+  | "squery" :: x :: target :: sfx =>
+    -- `k=N`: a predicate lookup (predicate: always true) for N nodes
+    match getInst st x with
+    | none => (st, "noop")
+    | some i =>
+      let n : Option Nat := (sfx.find? (·.startsWith "k=")).map (fun t => nat! (t.drop 2).toString)
+      let (l1, o1, res) := ({ svc := i.svc, q := i.lq } : Lookup.LSvc).step {} 0 (.lookup (sKey target) n)
+      finishOn st i l1.svc i.conn l1.q [(o1, l1.svc)] res none
   | ["sapi", x, "ping", rec] =>
     match parseRec rec with
-    | some r => runOn st x (fun s o => s.step o (.apiPing r)) [] none
+    | some r => runInputs st x [.apiPing r] [] none
     | none => (st, "noop")
   | ["sapi", x, "findnode", rec, ds] =>
     match parseRec rec with
-    | some r => runOn st x (fun s o => s.step o (.apiFindNode r (parseDists ds ","))) [] none
+    | some r => runInputs st x [.apiFindNode r (parseDists ds ",")] [] none
     | none => (st, "noop")
   | ["sapi", x, "talk", rec, p, q] =>
     match parseRec rec with
-    | some r => runOn st x (fun s o => s.step o (.apiTalk r (bytesOf p) (bytesOf q))) [] none
+    | some r => runInputs st x [.apiTalk r (bytesOf p) (bytesOf q)] [] none
     | none => (st, "noop")
   | "shonest" :: x :: rk :: y :: from_ :: rid :: sfx =>
     match getInst st x, getInst st y with
@@ -324,10 +330,8 @@ def serviceStep (st : ServiceSt) (toks : List String) : ServiceSt × String :=
             | _ => none
           let st1 := setInst st { iy with svc := sy }
           -- … and its packets are fed back one by one
-          runOn st1 x (fun s o =>
-            packets.foldl (fun (acc : Svc × List Out) p =>
-              let (s1, o1) := acc.1.step o (.response req.peer req.addr req.id (.nodes p.1 p.2))
-              (s1, acc.2 ++ o1)) (s, [])) sfx (some s!"pk={packets.length}")
+          runInputs st1 x (packets.map fun p => Svc.Input.response req.peer req.addr req.id (.nodes p.1 p.2))
+            sfx (some s!"pk={packets.length}")
         | _ => (st, "noop")
       | none => (st, "noop")
     | _, _ => (st, "noop")
